@@ -343,4 +343,126 @@ theorem gen_wavelen_eq (pi : ℚ) (sqrt : ℚ → ℚ) (f : ℚ) (depth : Option
 theorem gen_deep_eq (pi : ℚ) (sqrt : ℚ → ℚ) (f : ℚ) :
     Gen.celerity pi sqrt f none = Consts.deep / f ∧ Gen.wavelen pi sqrt f none = Consts.deep / f ^ 2 := ⟨rfl, rfl⟩
 
+/-! ## twin vs accessor
+
+`SpecArray.hs` (the accessor) integrates with the `np.gradient` bin widths `df` (`Stats.hsE`), `npstats.hs` (the numpy
+twin used by the partitioning code) with the trapezoid rule (`Stats.npHsE`).  On a strictly increasing frequency axis the
+interior weights coincide (`(f_{i+1} − f_{i−1})/2`); the end bins get the full one-sided spacing in `df` and half of it in
+the trapezoid.  So the two radicands differ **exactly** by half the end-bin weights, with or without the tail (both add
+the same tail term).  All lengths `≥ 2`, all values. -/
+
+/-- on an increasing axis `abs(freq[1:] - freq[:-1])` is the plain difference -/
+theorem absR_of_lt {a b : ℚ} (h : a < b) : absR (b - a) = b - a := by
+  unfold absR
+  rw [if_neg]
+  linarith
+
+/-- the recursion behind `npHsE_vs_hsE`: from the second frequency on, `Σ S·df − trapezoid` is half the first interior
+    weight plus half the last one-sided spacing times the last value -/
+theorem dfGo_vs_trapz (p c s : ℚ) (rest srest : Vec) (hlen : srest.length = rest.length)
+    (hinc : (c :: rest).Pairwise (· < ·)) :
+    dot (s :: srest) (dfGo p c rest) - trapz (npDf (c :: rest)) (s :: srest) =
+      (c - p) / 2 * s +
+        ((c :: rest).getD rest.length 0 - (p :: c :: rest).getD rest.length 0) / 2 * (s :: srest).getD rest.length 0 := by
+  induction rest generalizing p c s srest with
+  | nil =>
+    cases srest with
+    | nil => simp [dfGo, dot, mulV, npDf, trapz]; ring
+    | cons _ _ => simp at hlen
+  | cons n rest ih =>
+    cases srest with
+    | nil => simp at hlen
+    | cons s' srest =>
+      have hlen' : srest.length = rest.length := by simpa using hlen
+      have hcn : c < n := (List.pairwise_cons.mp hinc).1 n (by simp)
+      have hinc' : (n :: rest).Pairwise (· < ·) := (List.pairwise_cons.mp hinc).2
+      have h := ih c n s' srest hlen' hinc'
+      have e1 : dot (s :: s' :: srest) (dfGo p c (n :: rest)) = s * ((n - p) / 2) + dot (s' :: srest) (dfGo c n rest) := by
+        simp [dfGo, dot, mulV]
+      have e2 : trapz (npDf (c :: n :: rest)) (s :: s' :: srest) =
+          (n - c) * (s' + s) / 2 + trapz (npDf (n :: rest)) (s' :: srest) := by
+        simp [npDf, trapz, absR_of_lt hcn]
+      rw [e1, e2]
+      simp only [List.length_cons, List.getD_cons_succ]
+      linarith
+
+/-- both radicands add the same tail term `¼·S(f_n)·f_n`: the difference does not depend on `tail` -/
+theorem hsE_sub_npHsE_tail (thr q : ℚ) (tail : Bool) (f S : Vec) :
+    hsE thr q tail f S - npHsE thr q tail f S = hsE thr q false f S - npHsE thr q false f S := by
+  unfold hsE npHsE
+  simp only [Bool.false_and, Bool.false_eq_true, if_false]
+  ring
+
+/-- **accessor − twin = half the end-bin weights** (no tail):
+    `hsE − npHsE = (f₁ − f₀)/2 · S₀ + (f_{n−1} − f_{n−2})/2 · S_{n−1}` -/
+theorem npHsE_vs_hsE (thr q : ℚ) (f S : Vec) (h2 : 2 ≤ f.length) (hlen : S.length = f.length)
+    (hinc : f.Pairwise (· < ·)) :
+    hsE thr q false f S - npHsE thr q false f S =
+      (f[1] - f[0]) / 2 * S[0] + (f[f.length - 1] - f[f.length - 2]) / 2 * S[S.length - 1] := by
+  match f, S, h2, hlen, hinc with
+  | a :: b :: rest, s0 :: s1 :: srest, _, hlen, hinc =>
+    have hlen' : srest.length = rest.length := by simpa using hlen
+    have hab : a < b := (List.pairwise_cons.mp hinc).1 b (by simp)
+    have hinc' : (b :: rest).Pairwise (· < ·) := (List.pairwise_cons.mp hinc).2
+    have h := dfGo_vs_trapz a b s1 rest srest hlen' hinc'
+    have e1 : hsE thr q false (a :: b :: rest) (s0 :: s1 :: srest) = s0 * (b - a) + dot (s1 :: srest) (dfGo a b rest) := by
+      simp [hsE, m0E, df, dot, mulV]
+    have e2 : npHsE thr q false (a :: b :: rest) (s0 :: s1 :: srest) =
+        (b - a) * (s1 + s0) / 2 + trapz (npDf (b :: rest)) (s1 :: srest) := by
+      simp [npHsE, npDf, trapz, absR_of_lt hab]
+    rw [e1, e2]
+    have g1 : (b :: rest).getD rest.length 0 = (a :: b :: rest)[(a :: b :: rest).length - 1] := by
+      rw [List.getD_eq_getElem?_getD, List.getElem?_eq_getElem (by simp; try omega), Option.getD_some]; simp
+    have g2 : (a :: b :: rest).getD rest.length 0 = (a :: b :: rest)[(a :: b :: rest).length - 2] := by
+      rw [List.getD_eq_getElem?_getD, List.getElem?_eq_getElem (by simp; try omega), Option.getD_some]; simp
+    have g3 : (s1 :: srest).getD rest.length 0 = (s0 :: s1 :: srest)[(s0 :: s1 :: srest).length - 1] := by
+      rw [List.getD_eq_getElem?_getD, List.getElem?_eq_getElem (by simp [hlen']), Option.getD_some]; simp [hlen']
+    rw [g1, g2, g3] at h
+    simp only [List.getElem_cons_zero, List.getElem_cons_succ] at h ⊢
+    linarith
+  | [], _, h2, _, _ => simp at h2
+  | [_], _, h2, _, _ => simp at h2
+  | _ :: _ :: _, [], _, hlen, _ => simp at hlen
+  | _ :: _ :: _, [_], _, hlen, _ => simp at hlen
+
+/-- the same with the tail (and for either value of the flag) -/
+theorem npHsE_vs_hsE_tail (thr q : ℚ) (tail : Bool) (f S : Vec) (h2 : 2 ≤ f.length) (hlen : S.length = f.length)
+    (hinc : f.Pairwise (· < ·)) :
+    hsE thr q tail f S - npHsE thr q tail f S =
+      (f[1] - f[0]) / 2 * S[0] + (f[f.length - 1] - f[f.length - 2]) / 2 * S[S.length - 1] := by
+  rw [hsE_sub_npHsE_tail]
+  exact npHsE_vs_hsE thr q f S h2 hlen hinc
+
+/-- hence for a non-negative spectrum the twin's radicand never exceeds the accessor's -/
+theorem npHsE_le_hsE (thr q : ℚ) (tail : Bool) (f S : Vec) (h2 : 2 ≤ f.length) (hlen : S.length = f.length)
+    (hinc : f.Pairwise (· < ·)) (hS : ∀ x ∈ S, 0 ≤ x) :
+    npHsE thr q tail f S ≤ hsE thr q tail f S := by
+  have h := npHsE_vs_hsE_tail thr q tail f S h2 hlen hinc
+  have h01 : f[0] < f[1] := List.pairwise_iff_getElem.mp hinc 0 1 (by omega) (by omega) (by omega)
+  have hn : f[f.length - 2] < f[f.length - 1] :=
+    List.pairwise_iff_getElem.mp hinc _ _ (by omega) (by omega) (by omega)
+  have s0 : 0 ≤ S[0] := hS _ (List.getElem_mem _)
+  have sn : 0 ≤ S[S.length - 1] := hS _ (List.getElem_mem _)
+  have t1 : 0 ≤ (f[1] - f[0]) / 2 * S[0] := mul_nonneg (by linarith) s0
+  have t2 : 0 ≤ (f[f.length - 1] - f[f.length - 2]) / 2 * S[S.length - 1] := mul_nonneg (by linarith) sn
+  linarith
+
+/-- concrete numbers: `f = [1/8, 1/4, 1/2, 7/8]`, `S = [3, 5, 2, 7]`: `(1/8)/2·3 + (3/8)/2·7 = 3/2`, tail or not -/
+example : hsE (333/1000) (1/4) false [1/8, 1/4, 1/2, 7/8] [3, 5, 2, 7] -
+    npHsE (333/1000) (1/4) false [1/8, 1/4, 1/2, 7/8] [3, 5, 2, 7] = 3/2 := by decide +kernel
+example : hsE (333/1000) (1/4) true [1/8, 1/4, 1/2, 7/8] [3, 5, 2, 7] -
+    npHsE (333/1000) (1/4) true [1/8, 1/4, 1/2, 7/8] [3, 5, 2, 7] = 3/2 := by decide +kernel
+example : ((1/4 - 1/8 : ℚ)) / 2 * 3 + ((7/8 - 1/2 : ℚ)) / 2 * 7 = 3/2 := by decide +kernel
+/-- two frequencies: the accessor counts the single interval twice -/
+example : hsE (333/1000) (1/4) false [1/10, 3/10] [4, 6] = 2 ∧ npHsE (333/1000) (1/4) false [1/10, 3/10] [4, 6] = 1 := by
+  decide +kernel
+/-- the hypotheses are satisfiable -/
+example : 2 ≤ ([1/8, 1/4, 1/2, 7/8] : Vec).length ∧ ([3, 5, 2, 7] : Vec).length = ([1/8, 1/4, 1/2, 7/8] : Vec).length ∧
+    ([1/8, 1/4, 1/2, 7/8] : Vec).Pairwise (· < ·) ∧ (∀ x ∈ ([3, 5, 2, 7] : Vec), 0 ≤ x) := by decide +kernel
+example : 2 ≤ ([1/10, 3/10] : Vec).length ∧ ([4, 6] : Vec).length = ([1/10, 3/10] : Vec).length ∧
+    ([1/10, 3/10] : Vec).Pairwise (· < ·) := by decide +kernel
+/-- `dfGo_vs_trapz`, `absR_of_lt`: satisfiable too -/
+example : ([6] : Vec).length = ([3/10] : Vec).length ∧ ((1/10 : ℚ) :: [3/10]).Pairwise (· < ·) ∧ (1/10 : ℚ) < 3/10 := by
+  decide +kernel
+
 end WS.C01
